@@ -1,11 +1,12 @@
-//! Engine K harnesses over the real `tendril` crate: C10 (Utf8LossyDecoder), C11 (value
-//! semantics), C12 (memory safety, sequential).
+//! Engine K harnesses over the real `tendril` crate: C11 (tendrils behave as independent owned strings) and
+//! C12 (buffers freed exactly once, no out-of-bounds access; sequential only).  The UTF-8 stream decoder (C10) is
+//! checked by engine M instead (CBMC did not finish on it).
 #![allow(dead_code)]
 #[path = "../../common/k.rs"]
 pub mod k;
 #[path = "../../common/utf8.rs"]
 pub mod utf8;
-pub mod decoder;
+pub mod ops;
 
 #[cfg(kani)]
 pub fn stub_format(_: core::fmt::Arguments<'_>) -> String {
@@ -20,22 +21,6 @@ macro_rules! K {
         $(#[cfg_attr(kani, $m)])*
         pub fn $name() $body
     };
-}
-
-/// the concrete walk over length shapes, selected by a symbolic index inside one harness
-#[macro_export]
-macro_rules! shapes {
-    ($f:ident; $( ($($g:literal),*) )*) => {{
-        let sel: u8 = $crate::k::any();
-        let mut k = 0u8;
-        let mut hit = false;
-        $(
-            if sel == k { $f::<$($g),*>(); hit = true; }
-            k += 1;
-        )*
-        let _ = k;
-        $crate::k::assume(hit);
-    }};
 }
 
 /// byte string of <= 32 bytes as a shift register + length (no symbolic array indexing)
@@ -55,27 +40,15 @@ impl Reg {
         self.lo = (self.lo << 8) | b as u128;
         self.n += 1;
     }
-    pub fn push_all(&mut self, s: &[u8]) {
+    pub fn of(s: &[u8]) -> Reg {
+        let mut r = Reg::new();
         let mut i = 0;
         while i < s.len() {
-            self.push(s[i]);
+            r.push(s[i]);
             i += 1;
         }
+        r
     }
 }
 
-pub const TABLE: &[(&str, fn())] = &[
-    ("c10_dec4_a", decoder::c10_dec4_a),
-    ("c10_dec4_b", decoder::c10_dec4_b),
-    ("c10_dec4_c", decoder::c10_dec4_c),
-    ("c10_dec5_a", decoder::c10_dec5_a),
-    ("c10_dec5_b", decoder::c10_dec5_b),
-    ("c10_dec5_c", decoder::c10_dec5_c),
-    ("c10_dec5_d", decoder::c10_dec5_d),
-    ("c10_dec6_a", decoder::c10_dec6_a),
-    ("c10_dec6_b", decoder::c10_dec6_b),
-    ("c10_dec6_c", decoder::c10_dec6_c),
-    ("c10_dec6_d", decoder::c10_dec6_d),
-    ("c10_ref_is_std_4", decoder::c10_ref_is_std_4),
-    ("c10_probe_1shape", decoder::c10_probe_1shape),
-];
+pub const TABLE: &[(&str, fn())] = ops::TABLE;
